@@ -560,7 +560,13 @@ def _check_variant_shape(mname, q, w, kind, tree, fn=None):
         # either the historical `while True` is gone (a bounded for), or it must break when nothing is left AND detect cycles
         t = ast.unparse(w.test)
         if t == "True":
-            before = "\n".join(ast.unparse(st) for st in fn.body if st.lineno < w.lineno) if fn is not None else ""
+            before_stmts = [st for st in fn.body if st.lineno < w.lineno] if fn is not None else []
+            before = "\n".join(ast.unparse(st) for st in before_stmts)
+            # the cycle check may live in a helper that is called before the loop (one level of calls is followed, by name)
+            called = {c.func.id if isinstance(c.func, ast.Name) else c.func.attr for st in before_stmts for c in ast.walk(st) if isinstance(c, ast.Call) and isinstance(c.func, (ast.Name, ast.Attribute))}
+            for d in ast.walk(tree):
+                if isinstance(d, ast.FunctionDef) and d.name in called and d is not fn:
+                    before += "\n" + ast.unparse(d)
             src = ast.unparse(w)
             guard_before = "raise ValueError" in before and ("circular" in before.lower() or "cycle" in before.lower())
             guard_inside = "raise ValueError" in src and ("cycle" in src.lower() or "depth" in src.lower())
